@@ -98,6 +98,29 @@ def run(R):
             R.ok("C10.conserve", key, how, loc)
     except Violation as v:
         R.violation("C10.conserve", v.key, "FollowFileIterator::next: " + v.msg, [f.loc(v.bb)])
+    # every iteration polls the file: the read is not skipped on the strength of the iterator's own bookkeeping
+    R.rule("C10.poll", "every iteration of the follow loop attempts a read: no path from the loop header back to it (or to a delivery) bypasses "
+                       "the read call (a read gated on tracked positions / metadata can withhold completed lines)")
+    rds = [c for c in f.calls if READ.search(short(c.name))]
+    if rds:
+        lp0 = PR.loop_of(f, rds[0].bb)
+        if lp0:
+            hdr0 = lp0[0]
+            # paths from the header that return to the header or leave the function without passing a read
+            starts = f.succs(hdr0) if hdr0 not in [c.bb for c in rds] else []
+            bypass = False
+            if hdr0 not in [c.bb for c in rds]:
+                reach0 = set()
+                for s0 in f.succs(hdr0):
+                    reach0 |= f.reachable_from(s0, avoid={c.bb for c in rds})
+                if hdr0 in reach0 or any(e in reach0 for e in f.exits()):
+                    bypass = True
+            if bypass:
+                R.violation("C10.poll", "next|read-bypassed",
+                            "FollowFileIterator::next can complete an iteration without calling the read: whether new data is looked at depends on "
+                            "the iterator's own bookkeeping, so a completed line can be withheld", [rds[0].loc()])
+            else:
+                R.ok("C10.poll", "next", "the read call lies on every path through the loop", rds[0].loc())
     # byte-level read
     reads = [c for c in f.calls if READ.search(short(c.name))]
     for c in reads:
